@@ -105,14 +105,20 @@ Theorem C19_no_panic : forall (trim : str -> str) (cd : codecs) (e : env) (w : w
 Proof. exact handle_no_panic. Qed.
 Print Assumptions C19_no_panic.
 
-(* every switch of the model but the two found with the second group of methods and the after-Stop state
-   (GetBindingHistoryDetail, GetManagedAddressByScriptHashInCurrent: not yet repaired in /repo) is in the
-   repaired position for the code as it stands *)
+(* every switch of the model is in the repaired position for the code as it stands (the two found with the second
+   group of methods and the after-Stop state — GetBindingHistoryDetail, GetManagedAddressByScriptHashInCurrent —
+   were repaired by /repo commits 9638031 and d0557bc; [code_before_second_group_repairs] keeps the setting before them) *)
 Example C19_current_code_switches :
   current_code = {| fx_cti_index := true; fx_cti_block := true; fx_cti_dup := true; fx_senders := true; fx_sign_meta := true;
                     fx_sign_len0 := true; fx_cur_nil := true; fx_cur3_nil := true; fx_import_rec := true; fx_taskchan := true;
-                    fx_select_neg := true; fx_cur_evicted := false; fx_bindhist_hash := false |}.
+                    fx_select_neg := true; fx_cur_evicted := true; fx_bindhist_hash := true |}.
 Proof. exact current_code_switches. Qed.
+
+(* ... hence C19_no_panic is a statement about the code as it stands *)
+Theorem C19_current_code_no_panic : forall (trim : str -> str) (cd : codecs) (e : env) (w : wst) (r : request) (p : site),
+  wf w -> wf_env e -> selected_ok w e -> req_ok r -> handle trim cd current_code e w r <> Panic p.
+Proof. exact handle_no_panic. Qed.
+Print Assumptions C19_current_code_no_panic.
 
 (* T4: one lemma for every switch setting: a panic can only come from a site whose repair is switched
    off; sites without a switch never fire *)
@@ -182,8 +188,8 @@ Theorem C19_binding_history_refuted :
   wf w_sel /\ sequential w_sel /\ wf_env (env_lag row_lag1) /\ wf_env (env_lag row_lag2) /\
   handle id_trim cd0 as_found (env_lag row_lag1) w_sel (RGetBindingHistory []) = Panic PBindHistIndex /\
   handle id_trim cd0 as_found (env_lag row_lag2) w_sel (RGetBindingHistory []) = Panic PBindHistTargetNil /\
-  handle id_trim cd0 current_code (env_lag row_lag1) w_sel (RGetBindingHistory []) = Panic PBindHistIndex /\
-  handle id_trim cd0 current_code (env_lag row_lag2) w_sel (RGetBindingHistory []) = Panic PBindHistTargetNil /\
+  handle id_trim cd0 code_before_second_group_repairs (env_lag row_lag1) w_sel (RGetBindingHistory []) = Panic PBindHistIndex /\
+  handle id_trim cd0 code_before_second_group_repairs (env_lag row_lag2) w_sel (RGetBindingHistory []) = Panic PBindHistTargetNil /\
   handle id_trim cd0 all_fixed (env_lag row_lag1) w_sel (RGetBindingHistory []) = Ok tt /\
   handle id_trim cd0 all_fixed (env_lag row_lag2) w_sel (RGetBindingHistory []) = Ok tt.
 Proof. exact bind_history_as_found_refuted. Qed.
@@ -193,7 +199,7 @@ Print Assumptions C19_binding_history_refuted.
    those two sites and at the one of T11 ... *)
 Theorem C19_current_code_only_known_sites : forall trim cd e w r p,
   wf w -> wf_env e -> selected_ok w e -> req_ok r ->
-  handle trim cd current_code e w r = Panic p -> p = PBindHistIndex \/ p = PBindHistTargetNil \/ p = PCurEvictedNil.
+  handle trim cd code_before_second_group_repairs e w r = Panic p -> p = PBindHistIndex \/ p = PBindHistTargetNil \/ p = PCurEvictedNil.
 Proof. exact current_code_panics_only_at_known_sites. Qed.
 Print Assumptions C19_current_code_only_known_sites.
 
@@ -214,7 +220,7 @@ Print Assumptions C19_binding_history_panic_needs_lagging_row.
 Theorem C19_cur_evicted_refuted :
   wf w_evicted /\ wf_env env0 /\
   handle id_trim cd0 as_found env0 w_evicted (RValidateAddress [109]) = Panic PCurEvictedNil /\
-  handle id_trim cd0 current_code env0 w_evicted (RValidateAddress [109]) = Panic PCurEvictedNil /\
+  handle id_trim cd0 code_before_second_group_repairs env0 w_evicted (RValidateAddress [109]) = Panic PCurEvictedNil /\
   handle id_trim cd0 all_fixed env0 w_evicted (RValidateAddress [109]) = Err ErrAPINoWalletInUse /\
   handle id_trim cd0 as_found env0 w_evicted (RValidateAddress [122]) = Ok tt /\
   handle id_trim cd0 as_found env0 w_evicted (RGetWalletBalance 1 true) = Err ErrAPINoWalletInUse.
